@@ -20,20 +20,21 @@ ASSUMPTIONS = ["total duration (trailing INTERNAL marker) is not part of the sta
 TIERS = {"quick": dict(shards=8, examples=1500, alt_ppqn=[480], alt_shards=2),
          "thorough": dict(fuzz_runs=20000, fuzz_shards=4, size=2, shards=16, examples=25000, alt_ppqn=[480, 7, 1000], alt_shards=2)}
 
-VALUES = [1, 2, 3, 4, 5, 6, 7, 8, 12, 16, 24, 36, 48]
+VALUES = [1, 2, 3, 4, 5, 6, 7, 8, 12, 16, 24, 36, 48, 72, 96]
 
 
 @st.composite
 def _case(draw, size=1):
     pitches = draw(gens.pitch_pool([(60,), (60, 61), (60, 61, 62)]))
-    notes = draw(gens.wellformed_notes(channels=(0, 1), pitches=pitches, max_notes=9 * size, max_len=50, max_gap=30))
+    notes = draw(gens.wellformed_notes(channels=(0, 1), pitches=pitches, max_notes=9 * size, max_len=50,
+                                       max_gap=draw(st.sampled_from([30, 30, 70]))))
     meta = draw(gens.meta_events(max_tick=150, max_events=3, with_noise=True))
     spec = {"notes": notes, "meta": meta}
     spec.update(draw(gens.route()))
     end = max([n[3] for n in notes] + [m[1] for m in meta] + [0])
     spec["pad"] = draw(st.one_of(st.none(), st.just(end + draw(st.integers(0, 30)))))
     values = draw(st.one_of(st.lists(st.sampled_from(VALUES), min_size=0, max_size=5),
-                            st.sampled_from([[24, 12, 6, 16, 8, 4, 36, 18, 9], [12], [4, 2], [48, 24], [3, 5]])))
+                            st.sampled_from([[24, 12, 6, 16, 8, 4, 36, 18, 9], [12], [4, 2], [48, 24], [3, 5], [96], [48], [96, 12]])))
     return {"seq": spec, "values": list(values), "dne": draw(st.booleans())}
 
 
